@@ -4,11 +4,13 @@
 # itself), runs the check against it (EFOOTPRINT_REPO) with a scratch evidence directory, and undoes the change
 S=/verif/seeded/$1/patch.diff; P=$2; T=${3:-quick}; D=${4:-/tmp/seed/wt_$$}
 mkdir -p /tmp/seed
-[ -d $D ] || git -C /repo worktree add -q --detach $D HEAD || exit 2
+CREATED=0
+[ -d $D ] || { git -C /repo worktree add -q --detach $D HEAD || exit 2; CREATED=1; }
 git -C $D checkout -q --detach main && git -C $D checkout -q -- . || exit 2
 git -C $D apply $S 2>/dev/null || git -C $D apply --3way $S 2>/dev/null || { echo "seed=$1 patch does not apply to HEAD"; git -C $D reset -q --hard; exit 3; }
 cd /verif; mkdir -p .work/ev_seed .work/kept
 EFOOTPRINT_REPO=$D VERIF_EVIDENCE_DIR=/verif/.work/ev_seed_$$ ./check $P --tier $T > .work/kept/$1.log 2>&1; RC=$?
 rm -rf /verif/.work/ev_seed_$$
 git -C $D reset -q --hard; git -C $D clean -fdq
+[ $CREATED = 1 ] && { git -C /repo worktree remove --force $D; git -C /repo worktree prune; }
 echo "seed=$1 check=$P exit=$RC $(grep -c '^VIOLATION' .work/kept/$1.log) violation lines: $(grep -h 'signature' .work/kept/$1.log | head -3 | tr -s ' ' | tr '\n' ';' | cut -c1-200)"
